@@ -59,6 +59,9 @@ EVIDENCE = dict(
 MODNAME = 'c09jugfile'
 REDIS_URL = 'redis://localhost/'
 BACKENDS = ('file', 'filepack', 'dict', 'redis')
+# 'keepalive' (used by C15): the same directory layout read through `file_keepalive:<dir>`; the harness itself writes results
+# and lock files with the plain file_store objects, so no monitor process is ever started
+FILE_BACKENDS = ('file', 'filepack', 'keepalive')
 STATES = ('full', 'partial_closed', 'full', 'partial_open', 'full', 'partial_closed', 'empty', 'partial_open')
 EXEC_FLAGS = ['--will-cite', '--nr-wait-cycles', '1', '--wait-cycle-time', '0']
 
@@ -726,7 +729,7 @@ class Env:
 
     def open(self):
         self.activate()
-        if self.backend in ('file', 'filepack'):
+        if self.backend in FILE_BACKENDS:
             return file_store(self.jd)
         if self.backend == 'dict':
             return dict_store(self.dfile)
@@ -740,7 +743,9 @@ class Env:
         return self.real_arg()
 
     def real_arg(self):
-        if self.backend in ('file', 'filepack'):
+        if self.backend == 'keepalive':
+            return 'file_keepalive:' + self.jd
+        if self.backend in FILE_BACKENDS:
             return self.jd
         if self.backend == 'dict':
             return 'dict_store:' + self.dfile
@@ -748,7 +753,7 @@ class Env:
 
     def clone(self, tag):
         e = Env(self.backend, self.root, tag, self.setdir)
-        if self.backend in ('file', 'filepack'):
+        if self.backend in FILE_BACKENDS:
             if os.path.isdir(self.jd):
                 shutil.copytree(self.jd, e.jd)
         elif self.backend == 'dict':
@@ -761,7 +766,7 @@ class Env:
     def raw(self):
         """{key: digest of the stored bytes}, read without jug's lookup code where possible"""
         out = {}
-        if self.backend in ('file', 'filepack'):
+        if self.backend in FILE_BACKENDS:
             if os.path.isdir(self.jd):
                 for d in sorted(os.listdir(self.jd)):
                     p = os.path.join(self.jd, d)
